@@ -232,3 +232,27 @@ Print Assumptions c18_path_session_scenario.
 Print Assumptions c18_file_at_last_write.
 Print Assumptions c18_reopen_after_rewrite.
 Print Assumptions c18_same_contents_same_answers.
+
+(* ---- re-exported by tools/reexport.py: statements copied from `Check`, closed by `exact` ---- *)
+From QV Require Import ErrorModels.FileRecords.
+Theorem c18_unpack_prefix : forall (o : obj) (e : bsf), unpack_obj o = Ok e -> exists (s : str) (lenv : jvalue) (ds : list nibble), o = OVal (JList [JStr s; lenv]) /\ fromhex s = Some ds /\ length e <= 4 * length ds /\ e = firstn (length e) (payload ds).
+Proof. exact unpack_prefix. Qed.
+Theorem c18_served_from_payload : forall (st : bstate) (n : nat) (p : parg) (e : bsf) (st' : bstate), generate st n p = (OBits e, st') -> exists (s : str) (lenv : jvalue) (ds : list nibble), pull (rd st) = (Ok (OVal (JList [JStr s; lenv])), rd st') /\ fromhex s = Some ds /\ 2 * n <= 4 * length ds /\ e = firstn (2 * n) (payload ds).
+Proof. exact served_from_payload. Qed.
+Theorem c18_short_payload_not_served : forall (st : bstate) (n : nat) (p : parg) (s : str) (lenv : jvalue) (ds : list nibble) (r' : reader), pull (rd st) = (Ok (OVal (JList [JStr s; lenv])), r') -> fromhex s = Some ds -> 4 * length ds < 2 * n -> forall (e : bsf) (st' : bstate), generate st n p <> (OBits e, st').
+Proof. exact short_payload_not_served. Qed.
+Theorem c18_short_payload_refused : forall (st : bstate) (n : nat) (p : parg) (s : str) (z : Z) (ds : list nibble) (r' : reader), p_matches p (prob st) = true -> pull (rd st) = (Ok (OVal (JList [JStr s; JInt z])), r') -> fromhex s = Some ds -> 4 * length ds < 2 * n -> generate st n p = (OErr ValueError, with_rd st r').
+Proof. exact short_payload_refused. Qed.
+Theorem c18_record_decision : forall (st : bstate) (n : nat) (p : parg) (s : str) (z : Z) (ds : list nibble) (r' : reader), p_matches p (prob st) = true -> pull (rd st) = (Ok (OVal (JList [JStr s; JInt z])), r') -> fromhex s = Some ds -> (0 <= z)%Z -> generate st n p = (if Nat.min (Z.to_nat z) (4 * length ds) =? 2 * n then OBits (firstn (2 * n) (payload ds)) else OErr ValueError, with_rd st r').
+Proof. exact record_decision. Qed.
+Theorem c18_stated_length_refused : forall (st : bstate) (n : nat) (p : parg) (s : str) (z : Z) (ds : list nibble) (r' : reader), p_matches p (prob st) = true -> pull (rd st) = (Ok (OVal (JList [JStr s; JInt z])), r') -> fromhex s = Some ds -> (0 <= z)%Z -> Z.to_nat z <> 2 * n -> Z.to_nat z <= 4 * length ds -> generate st n p = (OErr ValueError, with_rd st r').
+Proof. exact stated_length_refused. Qed.
+Theorem c18_consistent_record_served : forall (st : bstate) (n : nat) (p : parg) (s : str) (ds : list nibble) (r' : reader), p_matches p (prob st) = true -> pull (rd st) = (Ok (OVal (JList [JStr s; JInt (Z.of_nat (2 * n))])), r') -> fromhex s = Some ds -> 2 * n <= 4 * length ds -> generate st n p = (OBits (firstn (2 * n) (payload ds)), with_rd st r').
+Proof. exact consistent_record_served. Qed.
+Print Assumptions c18_unpack_prefix.
+Print Assumptions c18_served_from_payload.
+Print Assumptions c18_short_payload_not_served.
+Print Assumptions c18_short_payload_refused.
+Print Assumptions c18_record_decision.
+Print Assumptions c18_stated_length_refused.
+Print Assumptions c18_consistent_record_served.
